@@ -7,6 +7,32 @@ VERIF = os.path.dirname(os.path.dirname(os.path.abspath(__file__)))
 props = [json.loads(l) for l in open(os.path.join(VERIF, "properties.jsonl"))]
 
 CLAIMED = {
+    "C11": dict(
+        category="proof",
+        text="The standard reading of the language is an executable Gallina lexer + precedence-climbing parser (the specification). "
+             "Closed theorems: it reads every expression tree with at most four operators (49537 trees: every shape, every operator "
+             "of + - * / // % ** and unary minus) back exactly from its minimal-parentheses printing (exhaustive, the bound is in the "
+             "statement), calls keep their arguments in order; the operator, unary, reserved-word and function tables regenerated "
+             "from ast_parser.py / sympy_interpreter.py are the standard ones (caret and BitXor are power), built-in names are "
+             "looked up in lower case, unknown names stay uninterpreted with their arguments. The real parser is compared with "
+             "the specification at rational points on EVERY pair and EVERY triple of operators, reserved words and ports next to "
+             "every operator, mixed-case built-ins and random strings. Partial: CPython's ast.parse and the re module are trusted.",
+        design_ref="DESIGN.md section 5 C11",
+        note="Trusted: Coq kernel; translator (tables, fail-closed); CPython ast/re; sympy arithmetic.",
+        technique="Coq specification parser with exhaustive bounded round-trip theorem + generated-table theorems + exhaustive operator pair/triple differential stream",
+    ),
+    "C12": dict(
+        category="translation_validation",
+        text="Round-trip validation per expression: the real serializer's text is read back by the real parser and both sympy "
+             "objects are compared inside Coq by value at rational points (perfect squares, so half-integer powers are exact), "
+             "free symbols and uninterpreted calls; every float of the original must appear among the number tokens of the text "
+             "to 15 significant digits; independently the specification grammar of C11 reads the text and must give the "
+             "original's value. Closed theorems cover the specification grammar (bounded exhaustive round trip), the caret-as-power "
+             "reading and the printer override table. sympy's StrPrinter is an oracle, so this is validation, not a theorem over all expressions.",
+        design_ref="DESIGN.md section 5 C12",
+        note="Trusted: sympy StrPrinter; translator for the printer overrides; values under floor/ceil/mod of a float are not compared (ill-conditioned).",
+        technique="differential round-trip validation inside Coq + specification-grammar reading of the printed text",
+    ),
     "C18": dict(
         category="proof",
         text="Closed theorems over tables regenerated from integrations/latex.py on every run: every port direction (input, output, "
